@@ -1,4 +1,5 @@
 from common import *
+import itertools
 from sxglib import H, unhex, setup as sxg_setup
 from bundlelib import burl_tables
 
@@ -29,7 +30,17 @@ def run(ctx):
     w = sxg_setup(ctx)
     ders = [k['cert'] for k in w.keys]
     lens = [0, 1, 23, 24, 255, 256] + ([65535, 65536] if thorough else [1000])
+    # every head-size boundary once, deterministically, for OCSP and SCT of a one-certificate chain (also SCT on a non-leaf element)
     specs = ['.']
+    for bl in (22, 23, 24, 254, 255, 256, 65534, 65535, 65536):
+        specs.append(f'{ders[0]}:{hexs(bytes(bl))}:nil')
+        specs.append(f'{ders[0]}:{hexs(b"o")}:{hexs(bytes(bl))}')
+    # SCT / OCSP presence patterns over 2- and 3-certificate chains (an SCT list on a non-leaf element is legal, an OCSP response is not)
+    for n in (2, 3):
+        for pat in itertools.product((None, b'sct'), repeat=n):
+            specs.append(','.join(f'{ders[i % len(ders)]}:{hexs(b"ocsp") if i == 0 else "nil"}:{hexs(p_) if p_ else "nil"}' for i, p_ in enumerate(pat)))
+        for pat in itertools.product((None, b'', b'o'), repeat=n):
+            specs.append(','.join(f'{ders[i % len(ders)]}:{("nil" if p_ is None else hexs(p_))}:nil' for i, p_ in enumerate(pat)))
     for n in range(1, 5):
         for _ in range(12 if not thorough else 200):
             chain = []
